@@ -66,7 +66,15 @@ def resolve_all(ev, st, t):
 
 
 def run(chk, tier):
-    crate = Crate("rand_jitter")
+    from ..report import Suffixed
+    run_config(chk, tier, None)
+    # the same with the optional features on (std + log): the logging macros expand to code there
+    run_config(Suffixed(chk, " [std+log]"), tier, "jitter-std")
+
+
+def run_config(chk, tier, config):
+    crate = Crate("rand_jitter", config) if config else Crate("rand_jitter")
+    crate.neutral_crates = {"log"}  # the log facade gets formatted copies only (that it cannot reach the generator is C19's)
     chk.config(crate.config)
     tdef = sq.find_method(crate, "rand_jitter::JitterRng::<F>::test_timer", "JitterRng", "test_timer")
     key = next((k for k in crate.bodies if crate.bodies[k]["def"] == tdef), None)
